@@ -18,7 +18,7 @@ Proof.
   induction s as [|a s IH]; destruct t as [|b t]; simpl; split; intro H; try reflexivity; try contradiction;
     try discriminate; auto.
   - destruct H as [H1 H2]. unfold lower in *. simpl. rewrite H1. f_equal. apply IH. exact H2.
-  - unfold lower in H. simpl in H. inversion H. split; [assumption|]. apply IH. assumption.
+  - unfold lower in H. simpl in H. injection H as H1 H2. split; [exact H1|]. apply IH. exact H2.
 Qed.
 
 Lemma same_mod_case_refl : forall s, same_mod_case s s.
@@ -47,10 +47,10 @@ Lemma pc_o_ok : forall c, pc_o c = Ok (pc c).
 Proof. destruct c; reflexivity. Qed.
 
 Lemma get_ok : forall c s d, od_get (lower s) (pc c) = Some d -> get c s = Ok d.
-Proof. intros c s d H. unfold get. rewrite pc_o_ok. simpl. rewrite H. reflexivity. Qed.
+Proof. intros c s d H. unfold get. rewrite pc_o_ok. cbn [obind]. rewrite H. reflexivity. Qed.
 
 Lemma getattr_ok : forall c n d, od_get n (attrs c) = Some d -> getattr c n = Ok d.
-Proof. intros c n d H. unfold getattr. rewrite pc_o_ok. simpl. rewrite H. reflexivity. Qed.
+Proof. intros c n d H. unfold getattr. rewrite pc_o_ok. cbn [obind]. rewrite H. reflexivity. Qed.
 
 (** * The published tables *)
 
@@ -86,10 +86,12 @@ Proof.
   destruct (od_get (lower name) (pc c)) as [d|] eqn:E1; [|discriminate].
   destruct (parse_dec (nist_value_text val unc)) as [v|] eqn:E2; [|discriminate].
   destruct (od_get (mangle name) (attrs c)) as [a|] eqn:E3; [|rewrite andb_false_r in H; discriminate].
-  repeat (apply andb_true_iff in H; destruct H as [H ?]).
-  exists d. split; [reflexivity|].
-  apply String.eqb_eq in H. apply dec_eqb_eq in H2. apply dec_eqb_eq in H0. apply String.eqb_eq in H1. subst.
-  repeat split; auto.
+  apply andb_true_iff in H; destruct H as [H Ha].
+  apply andb_true_iff in H; destruct H as [H Hc].
+  apply andb_true_iff in H; destruct H as [H Hu].
+  apply andb_true_iff in H; destruct H as [Hl Hv].
+  apply String.eqb_eq in Hl. apply dec_eqb_eq in Hv. apply dec_eqb_eq in Ha. apply String.eqb_eq in Hc. subst.
+  exists d. repeat split; auto.
   destruct b; apply String.eqb_eq; assumption.
 Qed.
 
@@ -134,22 +136,37 @@ Proof.
   apply String.eqb_eq in He. subst. assumption.
 Qed.
 
-Definition key_allowed (extras : list string) (c : cctx) (k : string) : bool :=
-  mem_str k (raw_names c) || (match c with C2018 => mem_str k (raw_names C2014) | C2014 => false end)
-  || mem_str k (map lower extras).
+Definition keys_all_allowed (extras : list string) (c : cctx) : bool :=
+  let rn := raw_names c in
+  let rn14 := match c with C2018 => raw_names C2014 | C2014 => [] end in
+  let ex := map lower extras in
+  forallb (fun kv : string * datum => mem_str (fst kv) rn || mem_str (fst kv) rn14 || mem_str (fst kv) ex) (pc c).
 
 Lemma no_extra_keys_b : forall extras c,
-  forallb (fun kv => key_allowed extras c (fst kv)) (pc c) = true ->
+  keys_all_allowed extras c = true ->
   forall k d, In (k, d) (pc c) ->
     In k (raw_names c) \/ (c = C2018 /\ In k (raw_names C2014)) \/ In k (map lower extras).
 Proof.
-  intros extras c H k d Hin.
-  pose proof (proj1 (forallb_forall _ _) H _ Hin) as Hk. simpl in Hk. unfold key_allowed in Hk.
+  intros extras c H k d Hin. unfold keys_all_allowed in H. cbv zeta in H.
+  pose proof (proj1 (forallb_forall _ _) H _ Hin) as Hk. cbn [fst snd] in Hk.
   apply orb_true_iff in Hk. destruct Hk as [Hk|Hk].
   - apply orb_true_iff in Hk. destruct Hk as [Hk|Hk].
     + left. apply mem_str_In. assumption.
     + right; left. destruct c; [discriminate|]. split; [reflexivity|]. apply mem_str_In. assumption.
   - right; right. apply mem_str_In. assumption.
+Qed.
+
+(* membership of a table row, decided by computation *)
+Definition row4_eqb (a b : string * string * string * string) : bool :=
+  let '(a1, a2, a3, a4) := a in let '(b1, b2, b3, b4) := b in
+  String.eqb a1 b1 && String.eqb a2 b2 && String.eqb a3 b3 && String.eqb a4 b4.
+Lemma In_row4 : forall x l, existsb (row4_eqb x) l = true -> In x l.
+Proof.
+  intros x l H. apply existsb_exists in H. destruct H as [y [Hy He]].
+  destruct x as [[[a1 a2] a3] a4], y as [[[b1 b2] b3] b4]. unfold row4_eqb in He.
+  repeat (apply andb_true_iff in He; destruct He as [He ?]).
+  apply String.eqb_eq in He. repeat match goal with H : String.eqb _ _ = true |- _ => apply String.eqb_eq in H end.
+  subst. assumption.
 Qed.
 
 (** every stored constant is reachable as the attribute spelled by mangling its label *)
@@ -160,7 +177,7 @@ Proof.
               match od_get (mangle (d_label (snd kv))) (attrs c) with
               | Some a => dec_eqb a (d_data (snd kv)) | None => false end) (pc c) = true)
     by (destruct c; vm_compute; reflexivity).
-  pose proof (proj1 (forallb_forall _ _) H _ Hin) as Hk. simpl in Hk.
+  pose proof (proj1 (forallb_forall _ _) H _ Hin) as Hk. cbn [fst snd] in Hk.
   destruct (od_get (mangle (d_label d)) (attrs c)); [|discriminate].
   apply dec_eqb_eq in Hk. subst. reflexivity.
 Qed.
@@ -171,7 +188,7 @@ Proof.
   intros c k d Hin.
   assert (H : forallb (fun kv : string * datum => String.eqb (fst kv) (lower (d_label (snd kv)))) (pc c) = true)
     by (destruct c; vm_compute; reflexivity).
-  pose proof (proj1 (forallb_forall _ _) H _ Hin) as Hk. simpl in Hk. apply String.eqb_eq in Hk. exact Hk.
+  pose proof (proj1 (forallb_forall _ _) H _ Hin) as Hk. cbn [fst snd] in Hk. apply String.eqb_eq in Hk. exact Hk.
 Qed.
 
 (** * The attribute spelling *)
@@ -188,8 +205,8 @@ Section Mangle.
             else Some (match trans_lookup a trans_from trans_to None with Some t => t | None => a end).
   Lemma mangle_is_doc : forall s, mangle s = mangle_by s.
   Proof.
-    unfold mangle. induction s as [|a s IH]; simpl; [reflexivity|].
-    rewrite doc_ok. destruct (mem_ascii a trans_del); [assumption|]. rewrite IH. reflexivity.
+    unfold mangle. induction s as [|a s IH]; [reflexivity|].
+    cbn [translate mangle_by]. rewrite doc_ok. destruct (mem_ascii a trans_del); [exact IH|]. rewrite IH. reflexivity.
   Qed.
 End Mangle.
 
@@ -204,7 +221,7 @@ Definition alias_ok (pi : string) (c : cctx) (nf : string * dexpr) : bool :=
 Lemma alias_ok_spec : forall pi c name f, alias_ok pi c (name, f) = true ->
   exists d, get c name = Ok d /\ d_label d = name /\ eval_dec (pc_data (pc c)) pi f = Ok (d_data d).
 Proof.
-  intros pi c name f H. unfold alias_ok in H. simpl in H.
+  intros pi c name f H. unfold alias_ok in H. cbn [fst snd] in H.
   destruct (od_get (lower name) (pc c)) as [d|] eqn:E1; [|discriminate].
   destruct (eval_dec (pc_data (pc c)) pi f) as [v|] eqn:E2; [|discriminate].
   apply andb_true_iff in H. destruct H as [H1 H2]. apply String.eqb_eq in H1. apply dec_eqb_eq in H2. subst.
@@ -214,15 +231,15 @@ Qed.
 (* agreement with the formula in exact rational arithmetic, to a relative [tol] *)
 Definition alias_Q_ok (pi : string) (tol : Q) (c : cctx) (nf : string * dexpr) : bool :=
   match od_get (lower (fst nf)) (pc c), eval_Q (pc_data (pc c)) pi (snd nf) with
-  | Some d, Some q => Qle_bool (Qabs (dec2Q (d_data d) - q)) (tol * Qabs q)
+  | Some d, Some q => Qle_bool (Qabs (dec2Q (d_data d) - q)) (tol * Qabs q)%Q
   | _, _ => false
   end.
 
 Lemma alias_Q_ok_spec : forall pi tol c name f, alias_Q_ok pi tol c (name, f) = true ->
   exists d q, get c name = Ok d /\ eval_Q (pc_data (pc c)) pi f = Some q
-              /\ Qabs (dec2Q (d_data d) - q) <= tol * Qabs q.
+              /\ (Qabs (dec2Q (d_data d) - q) <= tol * Qabs q)%Q.
 Proof.
-  intros pi tol c name f H. unfold alias_Q_ok in H. simpl in H.
+  intros pi tol c name f H. unfold alias_Q_ok in H. cbn [fst snd] in H.
   destruct (od_get (lower name) (pc c)) as [d|] eqn:E1; [|discriminate].
   destruct (eval_Q (pc_data (pc c)) pi f) as [q|] eqn:E2; [|discriminate].
   apply Qle_bool_iff in H. exists d, q. auto using get_ok.
@@ -231,13 +248,13 @@ Qed.
 (* a documented magnitude: the value is within a relative [tol] of a number written in the documentation *)
 Definition near_ok (tol : Q) (c : cctx) (nv : string * Q) : bool :=
   match od_get (lower (fst nv)) (pc c) with
-  | Some d => Qle_bool (Qabs (dec2Q (d_data d) - snd nv)) (tol * Qabs (snd nv))
+  | Some d => Qle_bool (Qabs (dec2Q (d_data d) - snd nv)) (tol * Qabs (snd nv))%Q
   | None => false
   end.
 Lemma near_ok_spec : forall tol c name v, near_ok tol c (name, v) = true ->
-  exists d, get c name = Ok d /\ Qabs (dec2Q (d_data d) - v) <= tol * Qabs v.
+  exists d, get c name = Ok d /\ (Qabs (dec2Q (d_data d) - v) <= tol * Qabs v)%Q.
 Proof.
-  intros tol c name v H. unfold near_ok in H. simpl in H.
+  intros tol c name v H. unfold near_ok in H. cbn [fst snd] in H.
   destruct (od_get (lower name) (pc c)) as [d|] eqn:E1; [|discriminate].
   apply Qle_bool_iff in H. exists d. auto using get_ok.
 Qed.
@@ -262,7 +279,7 @@ Definition rename_ok (p : string * string) : bool :=
       && String.eqb (d_label dold) old
       && mem_str (lower old) (raw_names C2014)
       && negb (mem_str (lower old) (raw_names C2018))
-      && Qle_bool (Qabs (dec2Q (d_data dold) - dec2Q (d_data d14))) ((1 # 10000) * Qabs (dec2Q (d_data d14)))
+      && Qle_bool (Qabs (dec2Q (d_data dold) - dec2Q (d_data d14))) ((1 # 10000) * Qabs (dec2Q (d_data d14)))%Q
   | _, _, _, _ => false
   end.
 
@@ -272,7 +289,7 @@ Definition rename_spec (new old : string) : Prop :=
     /\ published_2018 new = Some v /\ d_data dold = v /\ d_data dn = v
     /\ d_units dold = d_units dn /\ d_comment dold = d_comment dn /\ d_label dold = old
     /\ In (lower old) (raw_names C2014) /\ ~ In (lower old) (raw_names C2018)
-    /\ Qabs (dec2Q (d_data dold) - dec2Q (d_data d14)) <= (1 # 10000) * Qabs (dec2Q (d_data d14)).
+    /\ (Qabs (dec2Q (d_data dold) - dec2Q (d_data d14)) <= (1 # 10000) * Qabs (dec2Q (d_data d14)))%Q.
 
 Lemma mem_str_false : forall s l, mem_str s l = false -> ~ In s l.
 Proof.
@@ -288,10 +305,16 @@ Proof.
   destruct (od_get (lower old) (pc C2018)) as [dold|] eqn:E2; [|discriminate].
   destruct (published_2018 new) as [v|] eqn:E3; [|discriminate].
   destruct (od_get (lower old) (pc C2014)) as [d14|] eqn:E4; [|discriminate].
-  repeat (apply andb_true_iff in H; destruct H as [H ?]).
+  apply andb_true_iff in H; destruct H as [H Hq].
+  apply andb_true_iff in H; destruct H as [H Hn18].
+  apply andb_true_iff in H; destruct H as [H Hn14].
+  apply andb_true_iff in H; destruct H as [H Hlab].
+  apply andb_true_iff in H; destruct H as [H Hcom].
+  apply andb_true_iff in H; destruct H as [H Hun].
+  apply andb_true_iff in H; destruct H as [Hv1 Hv2].
   exists dn, dold, d14, v.
-  apply dec_eqb_eq in H. apply dec_eqb_eq in H6. apply String.eqb_eq in H5, H4, H3.
-  apply mem_str_In in H2. apply negb_true_iff in H1. apply mem_str_false in H1. apply Qle_bool_iff in H0.
+  apply dec_eqb_eq in Hv1. apply dec_eqb_eq in Hv2. apply String.eqb_eq in Hun, Hcom, Hlab.
+  apply mem_str_In in Hn14. apply negb_true_iff in Hn18. apply mem_str_false in Hn18. apply Qle_bool_iff in Hq.
   repeat split; auto using get_ok.
 Qed.
 
@@ -307,17 +330,17 @@ Qed.
 (* every 2014 key is still a key in 2018, with a value within 5 % (same physical quantity) *)
 Definition legacy_ok (kv : string * datum) : bool :=
   match od_get (fst kv) (pc C2018) with
-  | Some d => Qle_bool (Qabs (dec2Q (d_data d) - dec2Q (d_data (snd kv)))) ((5 # 100) * Qabs (dec2Q (d_data (snd kv))))
+  | Some d => Qle_bool (Qabs (dec2Q (d_data d) - dec2Q (d_data (snd kv)))) ((5 # 100) * Qabs (dec2Q (d_data (snd kv))))%Q
   | None => false
   end.
 Lemma legacy_all_ok : forallb legacy_ok (pc C2014) = true.
 Proof. vm_compute; reflexivity. Qed.
 
 Lemma legacy_names_retrievable : forall k d14 s, In (k, d14) (pc C2014) -> same_mod_case s k ->
-  exists d, get C2018 s = Ok d /\ Qabs (dec2Q (d_data d) - dec2Q (d_data d14)) <= (5 # 100) * Qabs (dec2Q (d_data d14)).
+  exists d, get C2018 s = Ok d /\ (Qabs (dec2Q (d_data d) - dec2Q (d_data d14)) <= (5 # 100) * Qabs (dec2Q (d_data d14)))%Q.
 Proof.
   intros k d14 s Hin Hs.
-  pose proof (proj1 (forallb_forall _ _) legacy_all_ok _ Hin) as H. unfold legacy_ok in H. simpl in H.
+  pose proof (proj1 (forallb_forall _ _) legacy_all_ok _ Hin) as H. unfold legacy_ok in H. cbn [fst snd] in H.
   destruct (od_get k (pc C2018)) as [d|] eqn:E; [|discriminate].
   apply Qle_bool_iff in H. exists d. split; [|assumption].
   rewrite (get_case_insensitive C2018 s k Hs).
@@ -332,3 +355,19 @@ Qed.
 
 Lemma dec2Q_mk_nonneg_exp : forall c e, (0 <= e)%Z -> dec2Q (mkdec c e) = inject_Z (c * 10 ^ e).
 Proof. intros c e H. unfold dec2Q. simpl. apply Z.leb_le in H. rewrite H. reflexivity. Qed.
+
+Lemma dec_mul_comm : forall a b, dec_mul a b = dec_mul b a.
+Proof. intros a b. unfold dec_mul. rewrite (Z.mul_comm (coef a)), (Z.add_comm (dexp a)). reflexivity. Qed.
+
+Lemma ndigits_abs : forall n, ndigits (Z.abs n) = ndigits n.
+Proof. intro n. unfold ndigits. rewrite Z.abs_involutive. reflexivity. Qed.
+
+Lemma dec_fix_short : forall d, (ndigits (coef d) <= prec)%Z -> dec_fix d = d.
+Proof.
+  intros d H. unfold dec_fix. rewrite ndigits_abs. apply Z.leb_le in H. rewrite H. reflexivity.
+Qed.
+
+(* a product whose exact coefficient fits in 28 digits is exact: scaling by powers of ten, small literals *)
+Lemma dec_mul_exact : forall a b, (ndigits (coef a * coef b) <= prec)%Z ->
+  dec_mul a b = mkdec (coef a * coef b) (dexp a + dexp b).
+Proof. intros a b H. unfold dec_mul. apply dec_fix_short. exact H. Qed.
